@@ -69,7 +69,7 @@ class HistogramND(HistogramBase):
             )
 
         # Missed values
-        self._missed = np.array([missed], dtype=self.dtype)
+        self._missed = np.asarray(missed, dtype=self.dtype).reshape(1)
 
     @property
     def bins(self) -> List[np.ndarray]:
